@@ -764,4 +764,264 @@ Proof.
     + unfold stage_head. rewrite try_head_app by exact Hl. rewrite E. reflexivity.
 Qed.
 
+Lemma head_post_weaken x d res : suffix x d -> head_post x res -> head_post d res.
+Proof.
+  intros Hs. pose proof (suffix_len _ _ Hs) as Hl.
+  destruct res as [[r s'|r s'|n] o]; cbn [head_post].
+  - intros [H1 [H2 H3]]. split; [exact H1|]. split; [exact H2|]. eapply suffix_trans; eassumption.
+  - intros [H1 [H2 [H3 H4]]]. split; [exact H1|]. split; [exact H2|].
+    split; [eapply suffix_trans; eassumption|lia].
+  - intros H; exact H.
+Qed.
+
+Lemma stage_pad_post i q d : inner_ok i -> q < 256 -> bytes_ok d -> head_post d (stage_pad i q d).
+Proof.
+  intros Hi Hq Hok. unfold stage_pad. destruct (N.ltb_spec 0 q) as [H0|H0].
+  - destruct (N.leb_spec (len d) q) as [H1|H1].
+    + split; [|split; [constructor|apply suffix_nil]].
+      split; [|exact I]. cbn [state_ok]. split; [exact Hi|split; lia].
+    + apply (head_post_weaken (drop q d)); [apply suffix_drop|].
+      apply stage_head_post; [exact Hi|apply bytes_ok_drop; exact Hok].
+  - apply stage_head_post; assumption.
+Qed.
+
+Lemma stage_head_nil i : stage_head i [] = (Break [] (Params i 0 0), []).
+Proof. unfold stage_head. rewrite try_head_short by (rewrite len_nil; lia). reflexivity. Qed.
+
+Lemma stage_pad_add i q d d2 : bytes_ok d -> add_res (stage_pad i q) d d2.
+Proof.
+  intros Hok. destruct (N.ltb_spec 0 q) as [H0|H0].
+  - destruct (N.leb_spec (len d) q) as [H1|H1].
+    + assert (E1 : stage_pad i q d = (Break [] (Params i 0 (q - len d)), [])).
+      { unfold stage_pad. destruct (N.ltb_spec 0 q) as [_|?]; [|lia].
+        destruct (N.leb_spec (len d) q) as [_|?]; [reflexivity|lia]. }
+      unfold add_res. rewrite E1. rewrite drive1_params0. cbn [app]. rewrite pair_eta.
+      unfold stage_pad. rewrite len_app.
+      destruct (N.ltb_spec 0 q) as [_|?]; [|lia].
+      destruct (N.leb_spec (len d + len d2) q) as [H2|H2].
+      * destruct (N.ltb_spec 0 (q - len d)) as [H3|H3].
+        -- destruct (N.leb_spec (len d2) (q - len d)) as [_|?]; [|lia].
+           f_equal. f_equal. f_equal. lia.
+        -- assert (Hd2 : d2 = []) by (apply len_zero_nil; lia). subst d2.
+           rewrite stage_head_nil. f_equal. f_equal. f_equal. rewrite len_nil. lia.
+      * rewrite drop_app_ge by lia.
+        destruct (N.ltb_spec 0 (q - len d)) as [H3|H3].
+        -- destruct (N.leb_spec (len d2) (q - len d)) as [?|_]; [lia|]. reflexivity.
+        -- replace (q - len d) with 0 by lia. reflexivity.
+    + assert (E1 : stage_pad i q d = stage_head i (drop q d)).
+      { unfold stage_pad. destruct (N.ltb_spec 0 q) as [_|?]; [|lia].
+        destruct (N.leb_spec (len d) q) as [?|_]; [lia|reflexivity]. }
+      assert (E2 : stage_pad i q (d ++ d2) = stage_head i (drop q d ++ d2)).
+      { unfold stage_pad. rewrite len_app. destruct (N.ltb_spec 0 q) as [_|?]; [|lia].
+        destruct (N.leb_spec (len d + len d2) q) as [?|_]; [lia|].
+        rewrite drop_app_le by lia. reflexivity. }
+      unfold add_res. rewrite E1, E2. apply stage_head_add. apply bytes_ok_drop. exact Hok.
+  - assert (Hq : q = 0) by lia. subst q. unfold add_res. rewrite !stage_pad_0.
+    apply stage_head_add. exact Hok.
+Qed.
+
+(* the size bound under which S1-S4 apply *)
+Lemma s_size i x : inner_ok i -> len x < SIZE_LIMIT -> len (ibuf i ++ x) <= USIZE_MAX.
+Proof.
+  intros Hi Hx. apply buf_ok_len in Hi. rewrite len_app. unfold SIZE_LIMIT, USIZE_MAX in *. lia.
+Qed.
+
+Lemma params_post i p q d : inner_ok i -> p < 65536 -> q < 256 -> bytes_ok d -> len d < SIZE_LIMIT ->
+  head_post d (params_drive norm i p q d) /\
+  (0 < p -> match params_drive norm i p q d with (Continue r _, _) => len r < len d | _ => True end).
+Proof.
+  intros Hi Hp Hq Hok Hsz. rewrite params_drive_eq.
+  destruct (N.ltb_spec 0 p) as [H0|H0].
+  - destruct (N.ltb_spec (len d) p) as [H1|H1].
+    + destruct (HS1 i d false Hi Hok (s_size i d Hi Hsz)) as [i' [c [E [Hi' [Hc _]]]]].
+      rewrite E. destruct (N.ltb_spec p c) as [?|_]; [lia|].
+      destruct (N.ltb_spec (len d) c) as [?|_]; [lia|].
+      split; [|intros _; exact I].
+      split; [|split; [constructor|apply suffix_drop]].
+      split; [|exact I]. cbn [state_ok]. split; [exact Hi'|split; lia].
+    + assert (Hokt : bytes_ok (take p d)) by (apply bytes_ok_take; exact Hok).
+      assert (Hlt : len (take p d) = p) by (rewrite len_take; lia).
+      assert (Hszt : len (take p d) < SIZE_LIMIT) by lia.
+      destruct (HS1 i (take p d) true Hi Hokt (s_size i _ Hi Hszt)) as [i' [c [E [Hi' [Hc [Hc2 _]]]]]].
+      specialize (Hc2 eq_refl). rewrite E.
+      destruct (N.eqb_spec c p) as [_|?]; [|lia]. cbn [negb].
+      pose proof (stage_pad_post i' q (drop p d) Hi' Hq (bytes_ok_drop p d Hok)) as P.
+      split; [apply (head_post_weaken (drop p d)); [apply suffix_drop|exact P]|].
+      intros _. destruct (stage_pad i' q (drop p d)) as [[r s'|r s'|n] o]; try exact I.
+      cbn [head_post] in P. destruct P as [_ [_ [_ P]]]. rewrite len_drop in P. lia.
+  - split; [apply stage_pad_post; assumption|lia].
+Qed.
+
+Lemma params_add i p q d d2 : inner_ok i -> bytes_ok (d ++ d2) -> len (d ++ d2) < SIZE_LIMIT ->
+  add_res (params_drive norm i p q) d d2.
+Proof.
+  intros Hi Hok Hsz. apply bytes_ok_app in Hok as [Hok1 Hok2].
+  assert (Hsz1 : len d < SIZE_LIMIT) by (rewrite len_app in Hsz; lia).
+  destruct (N.ltb_spec 0 p) as [H0|H0].
+  - destruct (N.ltb_spec (len d) p) as [H1|H1].
+    + (* payload incomplete in d *)
+      destruct (HS1 i d false Hi Hok1 (s_size i d Hi Hsz1)) as [i' [c [E [Hi' [Hc _]]]]].
+      assert (E1 : params_drive norm i p q d = (Break (drop c d) (Params i' (p - c) q), [])).
+      { rewrite params_drive_eq. destruct (N.ltb_spec 0 p) as [_|?]; [|lia].
+        destruct (N.ltb_spec (len d) p) as [_|?]; [|lia]. rewrite E.
+        destruct (N.ltb_spec p c) as [?|_]; [lia|].
+        destruct (N.ltb_spec (len d) c) as [?|_]; [lia|reflexivity]. }
+      unfold add_res. rewrite E1. cbn [drive1 app]. rewrite pair_eta.
+      rewrite !params_drive_eq.
+      destruct (N.ltb_spec 0 p) as [_|?]; [|lia].
+      destruct (N.ltb_spec 0 (p - c)) as [_|?]; [|lia].
+      rewrite !len_app, len_drop.
+      destruct (N.ltb_spec (len d + len d2) p) as [H2|H2];
+        destruct (N.ltb_spec (len d - c + len d2) (p - c)) as [H3|H3]; try lia.
+      * rewrite (HS3 i d d2 false Hi Hok1 Hok2) by (apply s_size; assumption).
+        rewrite E.
+        destruct (parse_stream norm i' (drop c d ++ d2) false) as [[i2 c2]|]; [|reflexivity].
+        destruct (N.ltb_spec p (c + c2)) as [H4|H4];
+          destruct (N.ltb_spec (p - c) c2) as [H5|H5]; try lia; [reflexivity|].
+        destruct (N.ltb_spec (len d + len d2) (c + c2)) as [H6|H6];
+          destruct (N.ltb_spec (len d - c + len d2) c2) as [H7|H7]; try lia; [reflexivity|].
+        f_equal. f_equal.
+        -- rewrite <- (drop_app_le c d d2) by lia. rewrite drop_drop. reflexivity.
+        -- f_equal. lia.
+      * assert (T1 : take p (d ++ d2) = d ++ take (p - len d) d2) by (apply take_app_ge; lia).
+        assert (T2 : take (p - c) (drop c d ++ d2) = drop c d ++ take (p - len d) d2).
+        { rewrite take_app_ge by (rewrite len_drop; lia). rewrite len_drop. f_equal. f_equal. lia. }
+        rewrite T1, T2.
+        rewrite (HS3 i d (take (p - len d) d2) true Hi Hok1 (bytes_ok_take _ _ Hok2)).
+        2:{ apply s_size; [exact Hi|]. rewrite len_app in *. rewrite len_take. lia. }
+        rewrite E.
+        destruct (parse_stream norm i' (drop c d ++ take (p - len d) d2) true) as [[i2 c2]|]; [|reflexivity].
+        destruct (N.eqb_spec (c + c2) p) as [H4|H4];
+          destruct (N.eqb_spec c2 (p - c)) as [H5|H5]; try lia; cbn [negb]; [|reflexivity].
+        f_equal. rewrite <- (drop_app_le c d d2) by lia. rewrite drop_drop. f_equal. lia.
+    + (* payload complete in d *)
+      assert (Hokt : bytes_ok (take p d)) by (apply bytes_ok_take; exact Hok1).
+      assert (Hlt : len (take p d) = p) by (rewrite len_take; lia).
+      assert (Hszt : len (take p d) < SIZE_LIMIT) by lia.
+      destruct (HS1 i (take p d) true Hi Hokt (s_size i _ Hi Hszt)) as [i' [c [E [Hi' [Hc [Hc2 _]]]]]].
+      specialize (Hc2 eq_refl).
+      assert (E1 : params_drive norm i p q d = stage_pad i' q (drop p d)).
+      { rewrite params_drive_eq. destruct (N.ltb_spec 0 p) as [_|?]; [|lia].
+        destruct (N.ltb_spec (len d) p) as [?|_]; [lia|]. rewrite E.
+        destruct (N.eqb_spec c p) as [_|?]; [reflexivity|lia]. }
+      assert (E2 : params_drive norm i p q (d ++ d2) = stage_pad i' q (drop p d ++ d2)).
+      { rewrite params_drive_eq. rewrite len_app. destruct (N.ltb_spec 0 p) as [_|?]; [|lia].
+        destruct (N.ltb_spec (len d + len d2) p) as [?|_]; [lia|].
+        rewrite take_app_le by lia. rewrite E.
+        destruct (N.eqb_spec c p) as [_|?]; [|lia]. cbn [negb]. rewrite drop_app_le by lia. reflexivity. }
+      unfold add_res. rewrite E1, E2. apply stage_pad_add. apply bytes_ok_drop. exact Hok1.
+  - assert (E1 : forall x, params_drive norm i p q x = stage_pad i q x).
+    { intros x. rewrite params_drive_eq. destruct (N.ltb_spec 0 p) as [?|_]; [lia|reflexivity]. }
+    unfold add_res. rewrite !E1. apply stage_pad_add. exact Hok1.
+Qed.
+
+(* ---- one step of State::drive: postcondition and additivity ---- *)
+Definition kappa (s : state) : N :=
+  match s with Header | Params _ _ _ | Done _ | Fatal _ => 0 | _ => 1 end.
+
+Lemma kappa_le1 s : kappa s <= 1.
+Proof. destruct s; cbn [kappa]; lia. Qed.
+
+Definition step_post (s : state) (d : bytes) (res : flow * bytes) : Prop :=
+  match res with
+  | (PANIC _, _) => False
+  | (Break r s', o) => sgood s' /\ bytes_ok o /\ suffix r d
+  | (Continue r s', o) =>
+    sgood s' /\ bytes_ok o /\ suffix r d /\ 2 * len r + kappa s' < 2 * len d + kappa s
+  end.
+
+Lemma head_post_step s d res : head_post d res -> step_post s d res.
+Proof.
+  destruct res as [[r s'|r s'|n] o]; cbn [head_post step_post]; [tauto| |tauto].
+  intros [H1 [H2 [H3 H4]]]. pose proof (kappa_le1 s'). repeat split; try assumption; try apply H1. lia.
+Qed.
+
+Lemma skip_step wrap nxt p q d s :
+  (forall p' q', p' <= p -> q' <= q -> 0 < p' + q' -> sgood (wrap p' q')) ->
+  sgood nxt -> kappa nxt = 0 -> kappa s = 1 ->
+  step_post s d (skip_drive wrap nxt p q d, []).
+Proof.
+  intros Hw Hn Kn Ks. pose proof (skip_post wrap nxt p q d) as P.
+  destruct (skip_drive wrap nxt p q d) as [r s'|r s'|n]; cbn [step_post].
+  - destruct P as [Hr [p' [q' [Hs [Hp [Hq Hpq]]]]]]. subst r s'.
+    split; [apply Hw; assumption|]. split; [constructor|apply suffix_nil].
+  - destruct P as [Hs [Hr Hl]]. subst r s'. split; [exact Hn|]. split; [constructor|].
+    split; [apply suffix_drop|]. rewrite len_drop. lia.
+  - exact P.
+Qed.
+
+Lemma values_step wrap nxt vars p q d s :
+  (forall v' p' q', p' <= p -> q' <= q -> sgood (wrap v' p' q')) ->
+  sgood nxt -> kappa nxt = 0 -> kappa s = 1 ->
+  step_post s d (values_drive maxc wrap nxt vars p q d).
+Proof.
+  intros Hw Hn Kn Ks. pose proof (values_post maxc wrap nxt vars p q d) as P.
+  destruct (values_drive maxc wrap nxt vars p q d) as [[r s'|r s'|n] o]; cbn [step_post].
+  - destruct P as [Hr [Ho [v' [p' [q' [Hs [Hp [Hq Hpq]]]]]]]]. subst s'.
+    split; [apply Hw; assumption|]. split; assumption.
+  - destruct P as [Hs [Hr [Ho _]]]. subst s'. split; [exact Hn|]. split; [exact Ho|].
+    split; [exact Hr|]. apply suffix_len in Hr. lia.
+  - exact P.
+Qed.
+
+Lemma drive1_post s d : state_ok s -> bytes_ok d -> len d < SIZE_LIMIT ->
+  step_post s d (drive1 norm maxc s d).
+Proof.
+  intros Hs Hok Hsz. destruct s as [|p q|vars p q|i p q|i p q|i vars p q|r p q|r|e]; cbn [drive1 state_ok] in *.
+  - apply head_post_step. apply header_post. exact Hok.
+  - apply skip_step; try reflexivity; [|split; exact I].
+    intros p' q' Hp Hq Hpq. split; [cbn [state_ok]; lia|exact Hpq].
+  - apply values_step; try reflexivity; [|split; exact I].
+    intros v' p' q' Hp Hq. split; [cbn [state_ok]; lia|exact I].
+  - destruct Hs as [Hi [Hp Hq]]. apply head_post_step. apply params_post; assumption.
+  - destruct Hs as [Hi [Hp Hq]]. apply skip_step; try reflexivity; [|apply params00_good; exact Hi].
+    intros p' q' Hp' Hq' Hpq. split; [cbn [state_ok]; split; [exact Hi|lia]|exact Hpq].
+  - destruct Hs as [Hi [Hp Hq]]. apply values_step; try reflexivity; [|apply params00_good; exact Hi].
+    intros v' p' q' Hp' Hq'. split; [cbn [state_ok]; split; [exact Hi|lia]|exact I].
+  - apply skip_step; try reflexivity; [|split; exact I].
+    intros p' q' Hp Hq Hpq. split; [cbn [state_ok]; lia|exact Hpq].
+  - split; [split; exact I|]. split; [constructor|apply suffix_refl].
+  - split; [split; exact I|]. split; [constructor|apply suffix_refl].
+Qed.
+
+Lemma skip_add1 wrap nxt p q d d2 :
+  (forall p' q' x, drive1 norm maxc (wrap p' q') x = (skip_drive wrap nxt p' q' x, [])) ->
+  add_res (fun x => (skip_drive wrap nxt p q x, [])) d d2.
+Proof.
+  intros Hw. unfold add_res. pose proof (skip_add wrap nxt p q d d2) as A.
+  destruct (skip_drive wrap nxt p q d) as [r s'|r s'|n].
+  - destruct A as [p' [q' [Hs A]]]. subst s'. rewrite Hw. cbn [fst snd app]. rewrite A. reflexivity.
+  - rewrite A. reflexivity.
+  - exact I.
+Qed.
+
+Lemma values_add1 wrap nxt vars p q d d2 : len (d ++ d2) <= USIZE_MAX ->
+  (forall v' p' q' x, drive1 norm maxc (wrap v' p' q') x = values_drive maxc wrap nxt v' p' q' x) ->
+  add_res (values_drive maxc wrap nxt vars p q) d d2.
+Proof.
+  intros Hsz Hw. unfold add_res. pose proof (values_add maxc wrap nxt vars p q d d2 Hsz) as A.
+  destruct (values_drive maxc wrap nxt vars p q d) as [[r s'|r s'|n] o].
+  - destruct A as [v' [p' [q' [Hs A]]]]. subst s'. rewrite Hw. exact A.
+  - exact A.
+  - exact I.
+Qed.
+
+Lemma drive1_add s d d2 : state_ok s -> bytes_ok (d ++ d2) -> len (d ++ d2) < SIZE_LIMIT ->
+  add_res (drive1 norm maxc s) d d2.
+Proof.
+  intros Hs Hok Hsz.
+  assert (Hsz2 : len (d ++ d2) <= USIZE_MAX) by (unfold SIZE_LIMIT, USIZE_MAX in *; lia).
+  pose proof Hok as Hok'. apply bytes_ok_app in Hok' as [Hok1 Hok2].
+  destruct s as [|p q|vars p q|i p q|i p q|i vars p q|r p q|r|e]; cbn [state_ok] in Hs.
+  - exact (header_add d d2 Hok1).
+  - apply (skip_add1 HeaderSkip Header). intros; reflexivity.
+  - apply (values_add1 HeaderValues Header); [exact Hsz2|]. intros; reflexivity.
+  - destruct Hs as [Hi _]. exact (params_add i p q d d2 Hi Hok Hsz).
+  - apply (skip_add1 (ParamsSkip i) (Params i 0 0)). intros; reflexivity.
+  - apply (values_add1 (ParamsValues i) (Params i 0 0)); [exact Hsz2|]. intros; reflexivity.
+  - apply (skip_add1 (DoneSkip r) (Done r)). intros; reflexivity.
+  - unfold add_res. cbn [drive1 fst snd app]. reflexivity.
+  - unfold add_res. cbn [drive1 fst snd app]. reflexivity.
+Qed.
+
 End Drive.
